@@ -663,6 +663,50 @@ seeded("flag-resolver-dispatch-table-up-ignored", ["C07"], [("anytree/resolver.p
     def __get(self, node, name):
 """)])
 
+# ------------------------------------------------------------------ C15
+WK = "anytree/walker.py"
+UPW = "            upwards = tuple(reversed(startpath[len_common:]))\n"
+DWN = "            down = endpath[len_common:]\n"
+ROOTCHK = """        if start.root is not end.root:
+            msg = "%r and %r are not part of the same tree." % (start, end)
+            raise WalkError(msg)
+"""
+seeded("c15-upwards-not-reversed", ["C15"], [(WK, UPW, "            upwards = tuple(startpath[len_common:])\n")], ["K2"])
+seeded("c15-upwards-off-by-one", ["C15"], [(WK, UPW, "            upwards = tuple(reversed(startpath[len_common - 1:]))\n")], ["K2"])
+seeded("c15-upwards-from-root", ["C15"], [(WK, UPW, "            upwards = tuple(reversed(startpath))\n")], ["K2"])
+seeded("c15-down-from-start-path", ["C15"], [(WK, DWN, "            down = startpath[len_common:]\n")], ["K2"])
+seeded("c15-down-reversed", ["C15"], [(WK, DWN, "            down = tuple(reversed(endpath[len_common:]))\n")], ["K2"])
+seeded("c15-common-first", ["C15"], [(WK, "        return upwards, common[-1], down\n", "        return upwards, common[0], down\n")], ["K2"])
+seeded("c15-no-same-tree-check", ["C15"], [(WK, ROOTCHK, "")], ["K1"])
+seeded("c15-same-tree-by-equality", ["C15", "C17"], [(WK, "if start.root is not end.root:", "if start.root != end.root:")])
+seeded("c15-wrong-error-class", ["C15"], [(WK, "            raise WalkError(msg)\n", "            raise ValueError(msg)\n")], ["K1"])
+seeded("c15-common-by-equality", ["C15", "C17"], [(WK, "if si is ei)", "if si == ei)")])
+seeded("c15-common-unfiltered", ["C15"], [(WK, "return tuple(si for si, ei in zip(start, end) if si is ei)", "return tuple(si for si, ei in zip(start, end))")], ["K3"])
+seeded("c15-empty-upwards-wrong-guard", ["C15"], [(WK, "        if start is common[-1]:\n", "        if start is common[0]:\n")], ["K2"])
+seeded("c15-walk-remembers-last", ["C15"], [(WK, "        startpath = start.path\n", "        self.last = (start, end)\n        startpath = start.path\n")], ["K4"])
+seeded("c15-swapped-paths", ["C15"], [(WK, "        startpath = start.path\n        endpath = end.path\n",
+                                       "        startpath = end.path\n        endpath = start.path\n")], ["K2"])
+benign("c15-slice-then-reverse", ["C15", "C17"], [(WK, UPW, "            upwards = startpath[len_common:][::-1]\n")])
+benign("c15-no-empty-shortcuts", ["C15", "C17"], [(WK, """        if start is common[-1]:
+            upwards = tuple()
+        else:
+            upwards = tuple(reversed(startpath[len_common:]))
+""", """        upwards = tuple(reversed(startpath[len_common:]))
+"""), (WK, """        if end is common[-1]:
+            down = tuple()
+        else:
+            down = endpath[len_common:]
+""", """        down = endpath[len_common:]
+""")])
+benign("c15-check-before-paths", ["C15", "C17"], [(WK, "        startpath = start.path\n        endpath = end.path\n" + ROOTCHK,
+                                                   ROOTCHK + "        startpath = start.path\n        endpath = end.path\n")])
+benign("c15-index-by-length", ["C15"], [(WK, "        return upwards, common[-1], down\n", "        return upwards, common[len_common - 1], down\n")])
+benign("c15-same-root-positive", ["C15", "C17"], [(WK, ROOTCHK, """        if start.root is end.root:
+            pass
+        else:
+            raise WalkError("%r and %r are not part of the same tree." % (start, end))
+""")])
+
 # ---------------------------------------------------------------- patch-based corpus
 # benign/<id>/patch.diff : behaviour-preserving refactorings written by independent authors
 #                          (must stay silent for every check)
@@ -673,7 +717,7 @@ import json as _json
 import os as _os
 
 _ROOT = _os.path.dirname(_os.path.dirname(_os.path.dirname(_os.path.abspath(__file__))))
-ALL_CHECKS = ["C01", "C02", "C03", "C04", "C05", "C06", "C07", "C08", "C10", "C11", "C12", "C13", "C14", "C16", "C17", "C18", "C19", "C20"]
+ALL_CHECKS = ["C01", "C02", "C03", "C04", "C05", "C06", "C07", "C08", "C10", "C11", "C12", "C13", "C14", "C15", "C16", "C17", "C18", "C19", "C20"]
 for _d in sorted(_glob.glob(_os.path.join(_ROOT, "benign", "*"))):
     _p = _os.path.join(_d, "patch.diff")
     if _os.path.exists(_p):
